@@ -40,6 +40,7 @@ KERNEL_SPECS = [
     ("pre_huge", "precomputed", None, False),                                # PSD matrix of magnitude 1e8
     ("pre_psd", "precomputed", None, False),
     ("pre_indef", "precomputed", None, False),
+    ("pre_roundsym", "precomputed", None, False),                            # PSD matrix that is symmetric only up to rounding (1e-17)
 ]
 METRIC_SPECS = [
     ("euclidean", "euclidean", None),
@@ -52,7 +53,8 @@ METRIC_SPECS = [
     ("pre_sym", "precomputed", None),
     ("pre_intdist", "precomputed", None),
     ("pre_tinydist", "precomputed", None),                                   # distances of magnitude 1e-9
-    ("pre_hugedist", "precomputed", None),                                   # distances of magnitude 1e7                                    # integer-typed distances (hop counts)
+    ("pre_hugedist", "precomputed", None),
+    ("pre_rounddist", "precomputed", None),                                  # hand-made 1 - similarity: diagonal +-1e-16, entries like -1e-17, symmetric up to rounding                                   # distances of magnitude 1e7                                    # integer-typed distances (hop counts)
 ]
 
 
@@ -113,6 +115,10 @@ def kernel_reference(tag, X, seed):
     if tag == "pre_int":
         A = sym_matrix(n, seed, "int")
         return {"kernel": "precomputed"}, A, A.astype(float)
+    if tag == "pre_roundsym":
+        A = sym_matrix(n, seed, "psd")
+        A = A + 1e-17 * np.triu(np.abs(A), 1)
+        return {"kernel": "precomputed"}, A, A
     if tag in ("pre_tiny", "pre_huge"):
         A = sym_matrix(n, seed, "psd") * (1e-10 if tag == "pre_tiny" else 1e8)
         return {"kernel": "precomputed"}, A, A
@@ -136,6 +142,14 @@ def metric_reference(tag, X, seed):
     if tag == "pre_intdist":
         A = sym_matrix(n, seed, "intdist")
         return {"metric": "precomputed"}, A, A.astype(float)
+    if tag == "pre_rounddist":
+        A = sym_matrix(n, seed, "metric")
+        A = A / max(1.0, A.max())
+        A[np.diag_indices(n)] = 1e-16 * np.where(np.arange(n) % 2, 1.0, -1.0)
+        A = A + 1e-17 * np.triu(np.ones((n, n)), 1)
+        if n > 2:
+            A[0, 1] = A[1, 0] = -1e-17          # two samples whose similarity rounds to slightly more than one
+        return {"metric": "precomputed"}, A, A
     if tag in ("pre_tinydist", "pre_hugedist"):
         A = sym_matrix(n, seed, "metric") * (1e-9 if tag == "pre_tinydist" else 1e7)
         return {"metric": "precomputed"}, A, A
